@@ -59,7 +59,7 @@ pub fn run(ctx: &mut Ctx) {
     ctx.floor("lencorrupt.cases", 50_000);
     ctx.floor("lencorrupt.accepted", 5_000);
 
-    let n = ctx.tier.pick(8_000, 80_000);
+    let n = ctx.tier.pick(32000, 320000);
     ctx.family("lists", n, |ctx, case: &mut Case| {
         let r = &mut case.rng;
         let max = *r.pick(&[0usize, 1, 2, 5, 40]);
@@ -132,7 +132,7 @@ pub fn run(ctx: &mut Ctx) {
     ctx.mark_exhaustive("CT version (256), hash x signature algorithm (65536), every timestamp bit");
 
     // single-entry parser consumes exactly one entry
-    let n = ctx.tier.pick(4_000, 40_000);
+    let n = ctx.tier.pick(16000, 160000);
     ctx.family("single", n, |ctx, case: &mut Case| {
         let r = &mut case.rng;
         let a = gen::sct(r, gen::SMALL);
@@ -169,7 +169,7 @@ pub fn run(ctx: &mut Ctx) {
     });
 
     // entry whose declared length exceeds the list; list whose length exceeds the input
-    let n = ctx.tier.pick(6_000, 60_000);
+    let n = ctx.tier.pick(24000, 240000);
     ctx.family("corruptions", n, |ctx, case: &mut Case| {
         let r = &mut case.rng;
         let l = gen::sct_vec(r, gen::TINY, 6);
@@ -221,7 +221,7 @@ pub fn run(ctx: &mut Ctx) {
     // every single length-field corruption (and byte mutations) of list encodings, followed by
     // bytes that look like more SCT data: whatever is returned must come from inside the declared
     // list, entry k from inside the k-th declared entry (independent walk of the length prefixes)
-    let n = ctx.tier.pick(6_000, 60_000);
+    let n = ctx.tier.pick(24000, 240000);
     ctx.family("len-corruptions", n, |ctx, case: &mut Case| {
         let r = &mut case.rng;
         let l = gen::sct_vec(r, gen::TINY, 5);
@@ -319,7 +319,7 @@ pub fn run(ctx: &mut Ctx) {
     });
 
     // truncation at every byte, list length rewritten to the truncated size
-    let n = ctx.tier.pick(600, 6_000);
+    let n = ctx.tier.pick(2400, 24000);
     ctx.family("truncation", n, |ctx, case: &mut Case| {
         let r = &mut case.rng;
         let l = gen::sct_vec(r, gen::TINY, 4);
